@@ -52,6 +52,7 @@ pub fn record(family: &str, args: &[String]) -> i32 {
         "lawtable" => table::record_lawtable(args),
         "interp" => interprec::record(args),
         "corpus" => interprec::record_corpus(args),
+        "corpus-trees" => interprec::record_corpus_trees(args),
         "cli" => cli::record(args),
         _ => {
             eprintln!("no recorder for family {}", family);
